@@ -1380,6 +1380,9 @@ class Engine:
         raise Unsupported('constructor %s' % c.name)
 
     def call_method(self, recv, name, args, kwargs, st, node):
+        hm0 = self.ctx_hook('any_method', st, recv, name, args, kwargs)
+        if hm0 is not None:
+            return hm0
         if isinstance(recv, (DSRefV,)) or (isinstance(recv, InstV) and recv.oid == self.self_oid
                                            and name not in self.ctx.inline
                                            and name in ('keys', '__getitem__', '__len__', '__iter__', 'copy')):
